@@ -601,7 +601,10 @@ class WsgiApplication(HttpBase):
         if len(length) == 0:
             length = 0
         else:
-            length = int(length)
+            try:
+                length = int(length)
+            except ValueError:
+                raise Fault('Client.BadRequest', 'Invalid Content-Length')
 
         if length > self.max_content_length:
             raise RequestTooLongError()
